@@ -911,3 +911,90 @@ def rule_sk_scope(cx, rep, port):
             rep.violated(sk.name, mod.body[0], 'names assigned outside the wrapper\'s local scope: {}'.format(nonlocal_assigned + top_assigned))
         else:
             rep.holds(sk.name, mod.body[0], 'one def + one call; {} wrapper bindings, all local; no global/nonlocal'.format(sum(1 for s in fn[0].get_symbols() if s.is_assigned())))
+
+
+EXPR_HOLES = ['where_expression', 'select_expression', 'sort_key_expression', 'aggregation_key_expression', 'lhs_join_var_expression']
+
+
+def rule_sk_paren(cx, rep, port):
+    """an expression fragment spliced in as an operand of an operator must be parenthesised in the template text: the fragment is
+    arbitrary user text, so `X and FRAGMENT` would re-associate when the fragment contains a lower-precedence operator"""
+    from ..skeleton import hole_ident
+    n = 0
+    for sk in _sks(cx, rep, port):
+        for h in EXPR_HOLES:
+            ident = hole_ident(h)
+            nodes = [x for x in ast.walk(sk.module) if isinstance(x, ast.Name) and x.id == ident]
+            for nd in nodes:
+                par = getattr(nd, 'parent', None)
+                if not isinstance(par, (ast.BoolOp, ast.BinOp, ast.Compare, ast.UnaryOp, ast.IfExp, ast.Subscript, ast.Attribute)):
+                    continue
+                n += 1
+                i = sk.text.find(ident)
+                before = sk.text[:i].rstrip()
+                after = sk.text[i + len(ident):].lstrip()
+                ok = before.endswith('(') and after.startswith(')')
+                if ok:
+                    rep.holds('{} {}'.format(sk.name, h), nd, 'fragment is an operand of `{}` and is parenthesised in the template'.format(type(par).__name__))
+                else:
+                    rep.violated('{} {}'.format(sk.name, h), nd, 'the {} fragment is spliced in as an operand of `{}` without parentheses (`{}`): a fragment containing a lower-precedence operator (or / ?: / ,) re-associates with the engine\'s own condition'.format(h, node_text(par, 80), node_text(par, 80)))
+    if n == 0:
+        rep.holds('expression fragments', (cx.port(port).files[cx.engine_mod(port)], 0), 'no expression fragment is an operand of an engine operator')
+
+
+def rule_sk_unnest_pos(cx, rep, port):
+    """select_unnested: the position that receives each list element is found in the record of the *current* call"""
+    p = cx.port(port)
+    mod = cx.engine_mod(port)
+    fd = p.func(mod, 'compile_and_run.select_unnested' if port == 'py' else 'select_unnested')
+    params = [a.arg for a in fd.args.args]
+    folded = params[-1]
+    stores = [n for n in walk_no_nested(fd) if isinstance(n, ast.Assign) and isinstance(n.targets[0], ast.Subscript) and not isinstance(n.targets[0].slice, ast.Slice)]
+    stores = [s for s in stores if isinstance(s.targets[0].value, ast.Name)]
+    if len(stores) != 1:
+        raise Undecided('select_unnested: element substitution store not found', fd)
+    st = stores[0]
+    pos = st.targets[0].slice
+    if not isinstance(pos, ast.Name):
+        raise Undecided('select_unnested: substitution index is not a local name', st)
+    defs = [n for n in walk_no_nested(fd) if isinstance(n, ast.Assign) and any(is_name(t, pos.id) for t in n.targets)]
+    bad = []
+    good = 0
+    for d in defs:
+        v = d.value
+        if is_none(v):
+            continue
+        txt = node_text(v, 200)
+        reads_state = any(isinstance(x, ast.Attribute) and dotted(x.value) in ('query_context', 'self', 'this') for x in ast.walk(v))
+        if reads_state:
+            bad.append(d)
+            continue
+        # py: `unnest_pos = i` inside `for i, x in enumerate(folded_fields)` ; js: folded_fields.findIndex(...)
+        if folded in names_in(v):
+            good += 1
+            continue
+        if isinstance(v, ast.Name):
+            loops = [lp for lp in walk_no_nested(fd) if isinstance(lp, ast.For) and v.id in names_in(lp.target) and folded in names_in(lp.iter) and any(d is x for x in ast.walk(lp))]
+            if loops:
+                good += 1
+                continue
+        bad.append(d)
+    if bad:
+        rep.violated('unnest position', bad[0], 'the UNNEST position is taken from `{}` instead of being located in the current record: with star items and records of different lengths the element lands in the wrong field'.format(node_text(bad[0].value, 80)))
+    elif good:
+        rep.holds('unnest position', st, 'the position of the UNNEST marker is located in the record of the current call')
+    else:
+        rep.undecided('unnest position', st, 'definition of the substitution index not recognised')
+    # a fresh copy per element, elements in order, verdict propagated
+    loops = [lp for lp in walk_no_nested(fd) if isinstance(lp, ast.For) and 'unnest_list' in node_text(lp.iter, 200)]
+    if len(loops) != 1:
+        rep.undecided('unnest expansion', fd, 'loop over unnest_list not found')
+        return
+    lp = loops[0]
+    it = lp.iter
+    plain = 'sorted' not in node_text(it) and 'reversed' not in node_text(it) and not (isinstance(it, ast.Subscript))
+    rep.decide(plain, 'unnest order', lp, 'one output record per list element, in list order', 'the UNNEST list is not iterated in its own order / completely (`{}`)'.format(node_text(it)))
+    from ..idioms import copy_source
+    copies = [n for n in ast.walk(fd) if isinstance(n, (ast.Assign,)) and copy_source(n.value) is not None and is_name(copy_source(n.value), folded)] + [n for n in ast.walk(fd) if isinstance(n, ast.Call) and isinstance(n.func, ast.Attribute) and n.func.attr == 'slice' and any(c is n for x in walk_no_nested(lp) for c in ast.walk(x))]
+    in_loop = [c for c in copies if any(c is x for x in ast.walk(lp))]
+    rep.decide(bool(in_loop), 'unnest copies', in_loop[0] if in_loop else lp, 'each emitted record is a fresh copy', 'the records emitted for one UNNEST list share a single list object')
